@@ -20,6 +20,10 @@
 //        configure(pipeline, path, ...) builds: PrettyFormatter(colour) -> console sink -> FunctionFormatter
 //        that strips the colour codes again -> file sink; one fresh pipeline, n messages through
 //        Pipeline::process; answer: n x "<time16> <text16 that reached the file sink>"
+//   T <threads> <rounds> <salt>                                      <threads> threads, each with its OWN
+//        PatternFormatter("%{func}") (no object is shared), each formatting <rounds> function texts nobody has
+//        formatted before ("virtual void t<salt>_<id>::Cls<int>::m<i>(const QString &, int) const");
+//        answer: number of outputs that differ from "t<salt>_<id>::Cls::m<i>"
 //   M                                                                answer: size of the regexp menu
 #ifdef VERIF_HEADER_ONLY
 #include "qtlogger.h"
@@ -32,8 +36,10 @@
 #include <cstdio>
 #include <unistd.h>
 #include <iostream>
+#include <atomic>
 #include <sstream>
 #include <string>
+#include <thread>
 #include <vector>
 using namespace QtLogger;
 
@@ -165,6 +171,32 @@ int main()
                 if (i) out += ' ';
                 out += hex16(tm) + ' ' + hex16(lm.formattedMessage());
             }
+        } else if (kind == "T") {
+            int nthreads = 2, rounds = 0, salt = 0;
+            is >> nthreads >> rounds >> salt;
+            std::atomic<int> bad { 0 };
+            std::atomic<int> ready { 0 };
+            std::atomic<bool> go { false };
+            std::vector<std::thread> th;
+            for (int id = 0; id < nthreads; id++) {
+                th.emplace_back([&, id]() {
+                    PatternFormatter pf(QStringLiteral("%{func}"));   // private to this thread
+                    const QByteArray who = "t" + QByteArray::number(salt) + "_" + QByteArray::number(id);
+                    ready.fetch_add(1);
+                    while (!go.load()) std::this_thread::yield();
+                    for (int i = 0; i < rounds; i++) {
+                        const QByteArray fn = "virtual void " + who + "::Cls<int>::m" + QByteArray::number(i) + "(const QString &, int) const";
+                        const QByteArray want = who + "::Cls::m" + QByteArray::number(i);
+                        QMessageLogContext ctx("f", 1, fn.constData(), "c");
+                        LogMessage lm(QtDebugMsg, ctx, QStringLiteral("x"));
+                        if (pf.format(lm) != QString::fromLatin1(want)) bad.fetch_add(1);
+                    }
+                });
+            }
+            while (ready.load() < nthreads) std::this_thread::yield();
+            go.store(true);
+            for (auto &t : th) t.join();
+            out = std::to_string(bad.load());
         } else if (kind == "J") {
             int compact = 0;
             is >> compact;
